@@ -6,37 +6,39 @@ The reader delivers the live entries in order, each attributed to some file betw
 tracked file and the file where the entry starts; the journal re-attributed that way (`ReAttr`)
 replays to exactly what the reader rebuilds.
 -/
-import MRL.Proofs.HCrashRead
-import MRL.Proofs.HAbs
+import MRL.Proofs.LItems
 
 namespace MRL.L
-open MRL Codec Consts G H Log C05
+open MRL Codec Consts G H Log C05 Torn
 
 /-- pointwise relation of two lists -/
 inductive All2 {α β : Type} (R : α → β → Prop) : List α → List β → Prop
   | nil : All2 R [] []
   | cons {a b l1 l2} : R a b → All2 R l1 l2 → All2 R (a :: l1) (b :: l2)
 
-/-- a group of tagged frames: of a retained journal entry (`some j`) or dead (`none`) -/
-abbrev Grp := Option JE × List TFrm
+/-- a group of items: of a retained journal entry (`some j`), or dead (`none`) -/
+abbrev Grp := Option JE × List AItm
 
-def liveOf (gs : List Grp) : List Seg := gs.filterMap fun x => x.1.map fun j => (j, x.2)
+def liveOf (gs : List Grp) : List Seg := gs.filterMap fun x => x.1.map fun j => (j, tfs x.2)
 
+/-- live: the frames of the entry, as written. Dead: a proper prefix of the frames of an entry
+    that was never finished, as written; or one junk slot. -/
 def GrpOK (x : Grp) : Prop :=
   match x.1 with
-  | some j => SegOK (j, x.2)
-  | none => ∃ rest : List Frm, rest ≠ [] ∧ EntryFrames true (untag x.2 ++ rest)
+  | some j => SegOK (j, tfs x.2) ∧ ∀ a ∈ x.2, a.2 = none
+  | none => (∃ rest : List Frm, rest ≠ [] ∧ EntryFrames true (frs x.2 ++ rest) ∧ ∀ a ∈ x.2, a.2 = none) ∨
+      (∃ a r, x.2 = [a] ∧ a.2 = some r)
 
 /-- lead frames, then groups; the live groups are the retained journal entries, in order -/
-def SegsX (F : Nat) (J : List JE) (afs : List TFrm) : Prop :=
-  ∃ (lead : List TFrm) (gs : List Grp),
-    afs = lead ++ gs.flatMap (·.2) ∧ (∀ a ∈ lead, a.2.1.isFirst = false) ∧
+def SegsX (F : Nat) (J : List JE) (ais : List AItm) : Prop :=
+  ∃ (lead : List AItm) (gs : List Grp),
+    ais = lead ++ gs.flatMap (·.2) ∧ (∀ a ∈ lead, a.2 = none ∧ a.1.2.1.isFirst = false) ∧
     (liveOf gs).map (·.1) = J.filter (fun j => decide (F ≤ j.loc)) ∧ (∀ x ∈ gs, GrpOK x)
 
-theorem liveOf_cons_some (j : JE) (fs : List TFrm) (gs : List Grp) :
-    liveOf ((some j, fs) :: gs) = (j, fs) :: liveOf gs := by simp [liveOf]
+theorem liveOf_cons_some (j : JE) (fs : List AItm) (gs : List Grp) :
+    liveOf ((some j, fs) :: gs) = (j, tfs fs) :: liveOf gs := by simp [liveOf]
 
-theorem liveOf_cons_none (fs : List TFrm) (gs : List Grp) : liveOf ((none, fs) :: gs) = liveOf gs := by
+theorem liveOf_cons_none (fs : List AItm) (gs : List Grp) : liveOf ((none, fs) :: gs) = liveOf gs := by
   simp [liveOf]
 
 theorem liveOf_append (a b : List Grp) : liveOf (a ++ b) = liveOf a ++ liveOf b := by
@@ -49,6 +51,34 @@ def ReAttr (F : Nat) (j' : JE) (s : Seg) : Prop :=
 /-- the record events of a list of journal entries with their attributions -/
 def entriesEv (J : List JE) : List RecEv := J.map fun j => RecEv.entry j.attr j.e.encode
 
+theorem entriesOf_entriesEv (J : List JE) : entriesOf (entriesEv J) = entriesEv J := by
+  induction J with
+  | nil => rfl
+  | cons j J ih =>
+    simp only [entriesEv, List.map_cons, entriesOf, List.filter_cons] at ih ⊢
+    rw [ih]; simp
+
+theorem replay_entriesOf : ∀ (l : List RecEv) (qs : MemQueues), replay qs l = replay qs (entriesOf l) := by
+  intro l
+  induction l with
+  | nil => intro qs; rfl
+  | cons ev l ih =>
+    intro qs
+    cases ev with
+    | corrupt => simp only [replay, entriesOf, List.filter_cons]; exact ih qs
+    | entry f b =>
+      have : entriesOf (RecEv.entry f b :: l) = RecEv.entry f b :: entriesOf l := by
+        simp [entriesOf, List.filter_cons]
+      rw [this]
+      simp only [replay]
+      cases Entry.decode b with
+      | none => exact ih qs
+      | some e =>
+        simp only
+        cases replayEntry qs f e with
+        | none => rfl
+        | some qs' => simp only [Option.bind_some]; exact ih qs'
+
 theorem head_tag_le {fs : List TFrm} (hp : fs.Pairwise (fun a b => a.1 ≤ b.1)) {a b : TFrm}
     (ha : fs.head? = some a) (hb : b ∈ fs) : a.1 ≤ b.1 := by
   cases fs with
@@ -60,115 +90,147 @@ theorem head_tag_le {fs : List TFrm} (hp : fs.Pairwise (fun a b => a.1 ≤ b.1))
     · exact Nat.le_refl _
     · exact (List.pairwise_cons.mp hp).1 b hb
 
+/-- items as written read as their frames -/
+theorem evsJ_none {ais : List AItm} (h : ∀ a ∈ ais, a.2 = none) : evsJ ais = evsOf (tfs ais) := by
+  induction ais with
+  | nil => rfl
+  | cons a ais ih =>
+    have ha := h a List.mem_cons_self
+    obtain ⟨x, r⟩ := a
+    simp only at ha
+    subst ha
+    rw [evsJ_cons, tfs_cons, evsOf_cons, ih (fun y hy => h y (List.mem_cons_of_mem _ hy))]
+    rfl
+
+/-- a proper prefix of the frames of an entry delivers nothing, and keeps the attribution -/
+theorem assemble_partA (part : List TFrm) : ∀ (b : Bool) (rest : List Frm) (st : AsmSt) (evs : List RdEv),
+    rest ≠ [] → EntryFrames b (untag part ++ rest) → (b = true ∨ st.within = true) →
+    ∃ st', st'.attr = st.attr ∧ assemble st (evsOf part ++ evs) = assemble st' evs := by
+  induction part with
+  | nil => intro b rest st evs _ _ _; exact ⟨st, rfl, by simp [evsOf]⟩
+  | cons a part ih =>
+    intro b rest st evs hrest hE hw
+    obtain ⟨f, t, p⟩ := a
+    simp only [untag, List.map_cons, List.cons_append] at hE
+    obtain ⟨ht, htail⟩ := hE
+    have hne : List.map (fun x : TFrm => x.2) part ++ rest ≠ [] := by simp [hrest]
+    have hemp : (List.map (fun x : TFrm => x.2) part ++ rest).isEmpty = false := by simpa using hne
+    simp only [hemp] at ht
+    have hlast : t.isLast = false := by rw [ht]; cases b <;> rfl
+    have hfirst : t.isFirst = b := by rw [ht]; cases b <;> rfl
+    have hw2 : (st.within || t.isFirst) = true := by
+      rw [hfirst]; rcases hw with h | h <;> simp [h]
+    rw [evsOf_cons, List.cons_append, assemble_more st f t p _ hlast hw2]
+    obtain ⟨st1, h1, h2⟩ := ih false rest
+      { within := true, buf := (if t.isFirst then [] else st.buf) ++ p, attr := st.attr } evs
+      hrest (htail hne) (Or.inr rfl)
+    exact ⟨st1, h1, h2⟩
+
 /-- **reassembly over groups** -/
 theorem asm_groups (F : Nat) : ∀ (gs : List Grp) (st : AsmSt) (tail : List RdEv),
-    (∀ x ∈ gs, GrpOK x) → (gs.flatMap (·.2)).Pairwise (fun a b => a.1 ≤ b.1) →
-    (∀ a ∈ gs.flatMap (·.2), st.attr ≤ a.1) → F ≤ st.attr →
-    ∃ (gs' : List Grp) (st' : AsmSt),
+    (∀ x ∈ gs, GrpOK x) → (tfs (gs.flatMap (·.2))).Pairwise (fun a b => a.1 ≤ b.1) →
+    (∀ a ∈ tfs (gs.flatMap (·.2)), st.attr ≤ a.1) → F ≤ st.attr →
+    ∃ (gs' : List Grp) (st' : AsmSt) (R : List RecEv),
       gs'.flatMap (·.2) = gs.flatMap (·.2) ∧ (∀ x ∈ gs', GrpOK x) ∧
       All2 (ReAttr F) ((liveOf gs').map (·.1)) (liveOf gs) ∧
-      assemble st (evsOf (gs.flatMap (·.2)) ++ tail) =
-        entriesEv ((liveOf gs').map (·.1)) ++ assemble st' tail := by
+      assemble st (evsJ (gs.flatMap (·.2)) ++ tail) = R ++ assemble st' tail ∧
+      entriesOf R = entriesEv ((liveOf gs').map (·.1)) := by
   intro gs
   induction gs with
   | nil =>
     intro st tail _ _ _ _
-    exact ⟨[], st, rfl, (fun _ h => by cases h), All2.nil, by simp [evsOf, entriesEv, liveOf]⟩
+    exact ⟨[], st, [], rfl, (fun _ h => by cases h), All2.nil, by simp [evsJ, liveOf], rfl⟩
   | cons x gs ih =>
     intro st tail hok hmono hlo hF
     obtain ⟨oj, fs⟩ := x
-    rw [List.flatMap_cons] at hmono hlo
-    have hmono2 : (gs.flatMap (·.2)).Pairwise (fun a b => a.1 ≤ b.1) := (List.pairwise_append.mp hmono).2.1
+    rw [List.flatMap_cons, tfs_append] at hmono hlo
+    have hmono2 : (tfs (gs.flatMap (·.2))).Pairwise (fun a b => a.1 ≤ b.1) := (List.pairwise_append.mp hmono).2.1
     have hokx := hok (oj, fs) List.mem_cons_self
     have hokr : ∀ x ∈ gs, GrpOK x := fun x hx => hok x (List.mem_cons_of_mem _ hx)
-    rw [List.flatMap_cons, evsOf_append, List.append_assoc]
+    rw [List.flatMap_cons, evsJ_append, List.append_assoc]
     cases oj with
     | none =>
-      -- a dead group: nothing is delivered, the attribution is unchanged
-      obtain ⟨rest, hrest, hE⟩ := hokx
-      -- turn the missing frames into tagged ones to use `assemble_part`
-      have hpart : ∃ st1, st1.attr = st.attr ∧
-          assemble st (evsOf fs ++ (evsOf (gs.flatMap (·.2)) ++ tail)) =
-            assemble st1 (evsOf (gs.flatMap (·.2)) ++ tail) := by
-        clear ih hmono hlo hmono2 hok hokr
-        generalize evsOf (gs.flatMap (·.2)) ++ tail = evs
-        have key : ∀ (part : List TFrm) (b : Bool) (st : AsmSt), EntryFrames b (untag part ++ rest) →
-            (b = true ∨ st.within = true) →
-            ∃ st1, st1.attr = st.attr ∧ assemble st (evsOf part ++ evs) = assemble st1 evs := by
-          intro part
-          induction part with
-          | nil => intro b st _ _; exact ⟨st, rfl, by simp [evsOf]⟩
-          | cons a part ihp =>
-            intro b st hE hw
-            obtain ⟨f, t, p⟩ := a
-            simp only [untag, List.map_cons, List.cons_append] at hE
-            obtain ⟨ht, htail⟩ := hE
-            have hne : List.map (fun x : TFrm => x.2) part ++ rest ≠ [] := by simp [hrest]
-            have hemp : (List.map (fun x : TFrm => x.2) part ++ rest).isEmpty = false := by simpa using hne
-            simp only [hemp] at ht
-            have hlast : t.isLast = false := by rw [ht]; cases b <;> rfl
-            have hfirst : t.isFirst = b := by rw [ht]; cases b <;> rfl
-            have hw2 : (st.within || t.isFirst) = true := by
-              rw [hfirst]; rcases hw with h | h <;> simp [h]
-            rw [evsOf_cons, List.cons_append, assemble_more st f t p _ hlast hw2]
-            obtain ⟨st1, h1, h2⟩ := ihp false
-              { within := true, buf := (if t.isFirst then [] else st.buf) ++ p, attr := st.attr }
-              (htail hne) (Or.inr rfl)
-            exact ⟨st1, h1, h2⟩
-        exact key fs true st hE (Or.inl rfl)
-      obtain ⟨st1, hs1, he1⟩ := hpart
-      obtain ⟨gs', st', g1, g2, g3, g4⟩ := ih st1 tail hokr hmono2
-        (fun a ha => by rw [hs1]; exact hlo a (List.mem_append_right _ ha)) (by rw [hs1]; exact hF)
-      refine ⟨(none, fs) :: gs', st', by rw [List.flatMap_cons, g1], ?_, ?_, ?_⟩
-      · intro y hy
-        rcases List.mem_cons.mp hy with rfl | hy
-        · exact ⟨rest, hrest, hE⟩
-        · exact g2 y hy
-      · rw [liveOf_cons_none, liveOf_cons_none]; exact g3
-      · rw [he1, g4, liveOf_cons_none]
+      rcases hokx with ⟨rest, hrest, hE, hnone⟩ | ⟨a, r, hfs, har⟩
+      · -- an unfinished entry: nothing is delivered, the attribution is unchanged
+        simp only at hE hnone
+        rw [evsJ_none hnone]
+        obtain ⟨st1, hs1, he1⟩ := assemble_partA (tfs fs) true rest st
+          (evsJ (gs.flatMap (·.2)) ++ tail) hrest hE (Or.inl rfl)
+        obtain ⟨gs', st', R, g1, g2, g3, g4, g5⟩ := ih st1 tail hokr hmono2
+          (fun a ha => by rw [hs1]; exact hlo a (List.mem_append_right _ ha)) (by rw [hs1]; exact hF)
+        refine ⟨(none, fs) :: gs', st', R, by rw [List.flatMap_cons, g1], ?_, ?_, ?_, ?_⟩
+        · intro y hy
+          rcases List.mem_cons.mp hy with rfl | hy
+          · exact Or.inl ⟨rest, hrest, hE, hnone⟩
+          · exact g2 y hy
+        · rw [liveOf_cons_none, liveOf_cons_none]; exact g3
+        · rw [he1, g4]
+        · rw [liveOf_cons_none]; exact g5
+      · -- a junk slot: one `corrupt` event; the next entry is attributed to its file
+        simp only at hfs har
+        subst hfs
+        have hev : evsJ [a] = [RdEv.corrupt a.1.1] := by simp [evsJ, evJ, har]
+        rw [hev]
+        simp only [List.cons_append, List.nil_append, assemble]
+        have hatag : st.attr ≤ a.1.1 := hlo a.1 (List.mem_append_left _ (by simp))
+        obtain ⟨gs', st', R, g1, g2, g3, g4, g5⟩ := ih { within := false, buf := st.buf, attr := a.1.1 } tail
+          hokr hmono2
+          (fun b hb => (List.pairwise_append.mp hmono).2.2 a.1 (by simp) b hb) (by simp only; omega)
+        refine ⟨(none, [a]) :: gs', st', RecEv.corrupt :: R, by rw [List.flatMap_cons, g1]; rfl, ?_, ?_, ?_, ?_⟩
+        · intro y hy
+          rcases List.mem_cons.mp hy with rfl | hy
+          · exact Or.inr ⟨a, r, rfl, har⟩
+          · exact g2 y hy
+        · rw [liveOf_cons_none, liveOf_cons_none]; exact g3
+        · rw [g4]; rfl
+        · rw [liveOf_cons_none]; exact g5
     | some j =>
-      have hso : SegOK (j, fs) := hokx
-      have hfne : fs ≠ [] := by
+      obtain ⟨hso, hnone⟩ : SegOK (j, tfs fs) ∧ ∀ a ∈ fs, a.2 = none := hokx
+      rw [evsJ_none hnone]
+      have hfne : tfs fs ≠ [] := by
         intro hnil
         have := hso.frames.ne_nil
         simp only at this
         rw [hnil] at this; exact this rfl
-      rw [assemble_tagged fs true st _ hso.frames (Or.inl rfl)]
+      rw [assemble_tagged (tfs fs) true st _ hso.frames (Or.inl rfl)]
       simp only [if_true, List.nil_append, hso.payload]
-      have hlt : ∀ a ∈ gs.flatMap (·.2), lastTag fs 0 ≤ a.1 := by
+      have hlt : ∀ a ∈ tfs (gs.flatMap (·.2)), lastTag (tfs fs) 0 ≤ a.1 := by
         intro a ha
         unfold lastTag
-        cases hl : fs.getLast? with
+        cases hl : (tfs fs).getLast? with
         | none => rw [List.getLast?_eq_none_iff] at hl; exact absurd hl hfne
         | some z =>
           exact (List.pairwise_append.mp hmono).2.2 z (List.mem_of_getLast? hl) a ha
-      have hFl : F ≤ lastTag fs 0 := by
+      have hFl : F ≤ lastTag (tfs fs) 0 := by
         unfold lastTag
-        cases hl : fs.getLast? with
+        cases hl : (tfs fs).getLast? with
         | none => rw [List.getLast?_eq_none_iff] at hl; exact absurd hl hfne
         | some z =>
           have := hlo z (List.mem_append_left _ (List.mem_of_getLast? hl))
           simp only [Option.map_some, Option.getD_some]; omega
-      obtain ⟨gs', st', g1, g2, g3, g4⟩ := ih { within := false, buf := j.e.encode, attr := lastTag fs 0 } tail
-        hokr hmono2 hlt hFl
-      -- the entry is attributed to `st.attr`
-      have hhead : ∃ a, fs.head? = some a := by
-        cases fs with
-        | nil => exact absurd rfl hfne
+      obtain ⟨gs', st', R, g1, g2, g3, g4, g5⟩ := ih { within := false, buf := j.e.encode, attr := lastTag (tfs fs) 0 }
+        tail hokr hmono2 hlt hFl
+      have hhead : ∃ a, (tfs fs).head? = some a := by
+        cases hfs : tfs fs with
+        | nil => exact absurd hfs hfne
         | cons a _ => exact ⟨a, rfl⟩
       obtain ⟨a0, ha0⟩ := hhead
       have hloc : a0.1 = j.loc := hso.first a0 ha0
       have hattr : st.attr ≤ j.loc := by
         rw [← hloc]; exact hlo a0 (List.mem_append_left _ (List.mem_of_head? ha0))
-      refine ⟨(some { j with attr := st.attr }, fs) :: gs', st', by rw [List.flatMap_cons, g1], ?_, ?_, ?_⟩
+      refine ⟨(some { j with attr := st.attr }, fs) :: gs', st', RecEv.entry st.attr j.e.encode :: R,
+        by rw [List.flatMap_cons, g1], ?_, ?_, ?_, ?_⟩
       · intro y hy
         rcases List.mem_cons.mp hy with rfl | hy
-        · exact ⟨hso.frames, hso.payload, hso.first⟩
+        · exact ⟨⟨hso.frames, hso.payload, hso.first⟩, hnone⟩
         · exact g2 y hy
       · rw [liveOf_cons_some, liveOf_cons_some]
         exact All2.cons ⟨rfl, rfl, hF, hattr⟩ g3
-      · rw [g4, liveOf_cons_some]
-        simp [entriesEv]
+      · rw [g4]; rfl
+      · rw [liveOf_cons_some]
+        simp only [List.map_cons, entriesEv] at g5 ⊢
+        rw [← g5]
+        simp [entriesOf, List.filter_cons]
 
 /-! ### replaying re-attributed entries -/
 
